@@ -235,7 +235,7 @@ class MailDriver:
                   "fl": sorted(norm_flag(f) for f in d.get("flags", [])),
                   "srv": d.get("srv") or [],
                   "infl": infl[1] if infl else "", "iuid": bool(infl[2]) if infl else False,
-                  "bid": 0, "g": d["g"]}
+                  "bid": 0, "g": d["g"], "st": bool(d.get("stamped", False))}
             if k == "FETCH":
                 for key, val in d["items"].items():
                     ku = key.upper()
